@@ -229,7 +229,14 @@ class ImageWriter:
             data = image.stream.get_data()
             i = 0
             for y in range(height):
-                bmp.write_line(y, data[i : i + bytes_per_line])
+                line = data[i : i + bytes_per_line]
+                if bits == 24:
+                    # PDF samples are R, G, B; BMP pixels are stored B, G, R
+                    n = len(line) - len(line) % 3
+                    swapped = bytearray(line)
+                    swapped[0:n:3], swapped[2:n:3] = line[2:n:3], line[0:n:3]
+                    line = bytes(swapped)
+                bmp.write_line(y, line)
                 i += bytes_per_line
         return name
 
